@@ -1227,6 +1227,19 @@ func (g *builder) roothashSpec(method, v string) spec {
 				return p
 			}
 			ev.EquivocationProposal = &roothash.EquivocationProposalEvidence{ProposalA: mk(1), ProposalB: mk(2)}
+		case "unknown-node":
+			// well-formed, correctly signed equivocation by a key that is not a registered node
+			// ("fake but valid" evidence: anybody can sign two proposals with a key of their own)
+			ghost := testSigner("verif c08 ghost node")
+			mk := func(k int) commitment.Proposal {
+				blk := block.NewEmptyBlock(st.LastBlock, 0, block.Normal)
+				p := commitment.Proposal{NodeID: ghost.Public(), Header: commitment.ProposalHeader{Round: blk.Header.Round, PreviousHash: blk.Header.PreviousHash, BatchHash: stateRoot(20 + k + r.Intn(50)*2)}}
+				if err := p.Sign(ghost, w.rtIDs[rt]); err != nil {
+					panic(err)
+				}
+				return p
+			}
+			ev.EquivocationProposal = &roothash.EquivocationProposalEvidence{ProposalA: mk(1), ProposalB: mk(2)}
 		}
 		return spec{body: ev, signer: signer}
 	case "roothash.SubmitMsg":
